@@ -719,7 +719,8 @@ def make_c09_judge(check_genbank=True):
             ctx.count("c09_inner_provenance_checked")
         if not check_genbank:
             return
-        if not want_id:
+        if not want_id or any(c.isspace() for c in want_id) or any(c.isspace() for c in (want_name or "")):
+            # (the LOCUS line is built from id and name: white space in either is not GenBank-legal)
             ctx.count("c09_not_genbank_legal_id")
             return
         try:
